@@ -12,15 +12,17 @@ Definition semi : bytes := [59%N].
 Definition plan1 (cmds : list (string * string)) : plan :=
   mkPlan [] [] [] [] (map (fun cc => mkChange (bs (fst cc)) (bs (snd cc)) []) cmds).
 
-(** 1. Builder.Ident does not escape the closing quote: table named [a'';b] (PostgreSQL). *)
+(** 1. Builder.Ident (repaired, C16-ident-double-quote-char): the table named [a'';b] (PostgreSQL)
+    is written with the quote doubled and read back; the spelling before the fix was not closed. *)
 Definition w_ident : bytes := bs "a"";b".
 Definition w_ident_plan : plan :=
   mkPlan [] [] [] []
     [mkChange (bs "CREATE TABLE " ++ ident 34 34 w_ident ++ bs " (""c"" integer)") (bs "create table") []].
-Lemma ident_refuted :
-  roundtrip FAtlas opts_postgres [] w_ident_plan <> planned opts_postgres semi w_ident_plan
-  /\ scan_closed opts_postgres semi (c_cmd (hd (mkChange [] [] []) (p_changes w_ident_plan))) = false.
-Proof. split; [vm_compute; discriminate | vm_compute; reflexivity]. Qed.
+Lemma ident_repaired :
+  roundtrip FAtlas opts_postgres [] w_ident_plan = planned opts_postgres semi w_ident_plan
+  /\ scan_closed opts_postgres semi (c_cmd (hd (mkChange [] [] []) (p_changes w_ident_plan))) = true
+  /\ scan_closed opts_postgres semi (bs "CREATE TABLE " ++ raw_ident 34 34 w_ident ++ bs " (""c"" integer)") = false.
+Proof. vm_compute. repeat split; reflexivity. Qed.
 
 (** 2. MySQL quote = strconv.Quote writes [\'']; the sqltool readers other than Liquibase scan with
     the generic options (no backslash escapes): a column comment [a''b;c] splits the statement. *)
@@ -47,14 +49,18 @@ Lemma comment_newline_refuted :
   /\ comment_ok (bs ("two" ++ nl ++ "DROP TABLE t")) = false.
 Proof. vm_compute. repeat split; try reflexivity; discriminate. Qed.
 
-(** 4. GooseFile.StmtDecls drops every line that contains ''Down'' (reGoosePragma's alternation is
-    not grouped); DBMateFile.StmtDecls every line that contains ''down''. *)
+(** 4. GooseFile / DBMateFile.StmtDecls (repaired, C07-pragma-regexp-grouping): a line containing
+    Down / down is no longer taken for a pragma; with the ungrouped patterns of the tree before the
+    fix both lines matched. *)
 Definition w_goose_plan : plan := plan1 [("CREATE TABLE ""CountDown"" (""c"" integer)", "create"); ("SELECT 1", "")]%string.
 Definition w_dbmate_plan : plan := plan1 [("CREATE TABLE ""downloads"" (""c"" integer)", "create"); ("SELECT 1", "")]%string.
-Lemma goose_dbmate_line_filter_refuted :
-  roundtrip FGoose opts_postgres [] w_goose_plan = Some [bs "SELECT 1;"]
-  /\ roundtrip FDBMate opts_postgres [] w_dbmate_plan = Some [bs "SELECT 1;"]
-  /\ forallb (fun c => scan_closed opts_generic semi (c_cmd c)) (p_changes w_goose_plan ++ p_changes w_dbmate_plan) = true.
+Lemma goose_dbmate_word_repaired :
+  roundtrip FGoose opts_postgres [] w_goose_plan = planned opts_generic semi w_goose_plan
+  /\ roundtrip FDBMate opts_postgres [] w_dbmate_plan = planned opts_generic semi w_dbmate_plan
+  /\ re_goose_pragma_ungrouped (bs "CREATE TABLE ""CountDown"" (""c"" integer);") = true
+  /\ re_dbmate_pragma_ungrouped (bs "CREATE TABLE ""downloads"" (""c"" integer);") = true
+  /\ re_goose_pragma (bs "CREATE TABLE ""CountDown"" (""c"" integer);") = false
+  /\ re_dbmate_pragma (bs "CREATE TABLE ""downloads"" (""c"" integer);") = false.
 Proof. vm_compute. repeat split; reflexivity. Qed.
 
 (** 5. Liquibase (the multi-line rollback leak was repaired in the tree under test, ae3e356:
@@ -129,3 +135,11 @@ Definition ex_trigger_plan : plan :=
     [mkChange (bs "CREATE TABLE `t` (`a` int, `b` text)") (bs "create t") [];
      mkChange (render_begin ex_trigger) (bs "create trigger") [];
      mkChange (bs "CREATE TABLE `u` (`a` int)") [] []].
+
+(** a DBMate file with options after the direction (repaired, C07-dbmate-directive-options) *)
+Definition w_dbmate_options : bytes :=
+  bs ("-- migrate:up transaction:false" ++ nl ++ "CREATE TABLE t1 (a int);" ++ nl ++ "CREATE TABLE t2 (a int);" ++ nl
+      ++ "-- migrate:down transaction:false" ++ nl ++ "DROP TABLE t1;" ++ nl).
+Lemma dbmate_options_repaired :
+  texts (read FDBMate opts_generic w_dbmate_options) = Some [bs "CREATE TABLE t1 (a int);"; bs "CREATE TABLE t2 (a int);"].
+Proof. vm_compute. reflexivity. Qed.
